@@ -584,6 +584,96 @@ Definition read_set (R : rules) (reference : option (list Z)) (overhang mapq_thr
   | Some rs => Some (keep_some (map (read_from_group R threshold) (group_reads rs)))
   end.
 
+(* ---- restricted_genotypes (the haplotagphase calling convention): read(..., restricted_genotypes = one genotype per
+   variant); a genotype is the list of its allele indices, [] = missing (./.).  Only re-alignment looks at it.
+   The functions below are the ones above with the restriction threaded through; for genotypes = None they coincide
+   with them (proofs/AlleleDetectRefuted.v: read_set_r_none). *)
+Definition genotypes := option (list (list nat)).
+(* `restricted_genotypes[index] if restricted_genotypes else None`; outer None = IndexError *)
+Definition restriction_of (g : genotypes) (j : nat) : option (option (list nat)) :=
+  match g with
+  | None | Some [] => Some None
+  | Some l => match nth_error l j with Some x => Some (Some x) | None => None end
+  end.
+Definition realign_restricted (R : rules) (reference : list Z) (overhang : nat) (v : variant) (cig : cigar)
+           (query : list Z) (i consumed qpos : nat) (restr : option (list nat)) : option (option nat) :=
+  match restr with
+  | None => realign R reference overhang v cig query i consumed qpos
+  | Some g =>
+      if is_symbolic v then Some None else
+      match g with
+      | [] => Some None                              (* restricted_variants.is_none() *)
+      | _ =>
+          match windows R reference overhang v cig query i consumed qpos with
+          | None => None
+          | Some (q, pref, palt) =>
+              (* distances = [(i, d_i) for i in (0, 1) if i in genotype]; one entry: that allele *)
+              match existsb (Nat.eqb 0) g, existsb (Nat.eqb 1) g with
+              | true, true => Some (decide (edist q pref) (edist q palt))
+              | true, false => Some (Some 0)
+              | false, true => Some (Some 1)
+              | false, false => None                 (* IndexError: the genotype names no allele of the record *)
+              end
+          end
+      end
+  end.
+Fixpoint realign_all_r (R : rules) (reference : list Z) (overhang : nat) (variants : list variant) (gt : genotypes)
+         (cig : cigar) (query : list Z) (ys : list cyield) : option (list det) :=
+  match ys with
+  | [] => Some []
+  | (j, i, consumed, qpos) :: ys' =>
+      match nth_error variants j, restriction_of gt j with
+      | Some v, Some restr =>
+          match realign_restricted R reference overhang v cig query i consumed qpos restr with
+          | None => None
+          | Some r =>
+              match realign_all_r R reference overhang variants gt cig query ys' with
+              | None => None
+              | Some rest => Some (match r with Some a => (j, a, 30) :: rest | None => rest end)
+              end
+          end
+      | _, _ => None
+      end
+  end.
+Definition detect_by_alignment_r (R : rules) (reference : list Z) (overhang : nat) (variants : list variant)
+           (gt : genotypes) (start : nat) (cig : cigar) (query : list Z) : option (list det) :=
+  match cig with
+  | [] => Some []
+  | _ => realign_all_r R reference overhang variants gt cig query (iterate_cigar (index_from 0 variants) start cig)
+  end.
+Definition detect_one_r (R : rules) (reference : option (list Z)) (overhang : nat) (variants : list variant)
+           (gt : genotypes) (a : alignment) : option (list rvar) :=
+  match reference with
+  | Some r => match detect_by_alignment_r R r overhang variants gt (a_start a) (a_cigar a) (a_query a) with
+              | Some ds => Some (to_rvars variants ds)
+              | None => None
+              end
+  | None => Some (to_rvars variants (detect_noref R variants (a_start a) (a_cigar a) (a_query a) (a_quals a)))
+  end.
+Fixpoint alignments_to_reads_r (R : rules) (reference : option (list Z)) (overhang : nat) (variants : list variant)
+         (gt : genotypes) (alns : list alignment) : option (list aligned_read) :=
+  match alns with
+  | [] => Some []
+  | a :: r =>
+      match detect_one_r R reference overhang variants gt a, alignments_to_reads_r R reference overhang variants gt r with
+      | Some vs, Some rest =>
+          Some (match vs with
+                | [] => rest
+                | _ => mkAR (a_name a) (a_supp a) (a_reverse a) (a_start a) (a_start a + ref_consumed (a_cigar a)) vs
+                       :: rest
+                end)
+      | _, _ => None
+      end
+  end.
+Definition read_set_r (R : rules) (reference : option (list Z)) (overhang mapq_threshold : nat) (use_supp duplicates : bool)
+           (threshold : Z) (variants : list variant) (gt : genotypes) (alns : list alignment)
+  : option (list (nat * list rvar)) :=
+  match alignments_to_reads_r R reference overhang variants gt
+          (filter (usable mapq_threshold use_supp duplicates) alns) with
+  | None => None
+  | Some rs => Some (keep_some (map (read_from_group R threshold) (group_reads rs)))
+  end.
+
 (* the defaults of ReadSetReader except for the supplementary distance threshold *)
 Definition read_set_default (R : rules) (reference : option (list Z)) (threshold : Z) (variants : list variant)
            (alns : list alignment) :=
@@ -705,14 +795,14 @@ Definition sample_select (h : rg_header) (sample : option nat) (rgs : list (opti
 Definition rg_info := (rg_header * option nat * list (option nat))%type.
 Definition impl_out := (option (list (nat * list rvar)) * nat)%type.
 (* constructor options of ReadSetReader varied by the check: (overhang, mapq_threshold, use_supplementary, duplicates) *)
-Definition options := (nat * nat * bool * bool)%type.
-Definition default_options : options := (10, 20, false, false).
+Definition options := (nat * nat * bool * bool * genotypes)%type.
+Definition default_options : options := (10, 20, false, false, None).
 Definition read_set_sample (R : rules) (reference : option (list Z)) (threshold : Z) (o : options) (rg : rg_info)
            (variants : list variant) (alns : list alignment) : impl_out :=
   let '(h, sample, rgs) := rg in
-  let '(overhang, mapq, use_supp, dup) := o in
+  let '(overhang, mapq, use_supp, dup, gt) := o in
   match sample_select h sample rgs alns with
-  | (Some l, _) => (read_set R reference overhang mapq use_supp dup threshold variants l, 0)
+  | (Some l, _) => (read_set_r R reference overhang mapq use_supp dup threshold variants gt l, 0)
   | (None, e) => (None, e)
   end.
 (* the alignments that belong to the requested sample (specification side: every read group whose SM is the sample) *)
@@ -746,10 +836,10 @@ Definition l1_no_wrong_skip (c : case_t) : bool :=
   let '(_, _, _, (_, truth_skip), _, _) := c in with_out c (no_wrong_allele truth_skip).
 (* only overlapped variants, and only on reads of the requested sample *)
 Definition l1_overlap (c : case_t) : bool :=
-  let '((_, _, (_, mapq, use_supp, dup), rg), variants, alns, _, _, _) := c in
+  let '((_, _, (_, mapq, use_supp, dup, _), rg), variants, alns, _, _, _) := c in
   with_out c (only_overlapped mapq use_supp dup variants (of_sample rg alns)).
 Definition l1_overlap_touch (c : case_t) : bool :=
-  let '((_, _, (_, mapq, use_supp, dup), rg), variants, alns, _, _, _) := c in
+  let '((_, _, (_, mapq, use_supp, dup, _), rg), variants, alns, _, _, _) := c in
   with_out c (only_overlapped_or_touched mapq use_supp dup variants (of_sample rg alns)).
 Definition l1_missing (c : case_t) : bool :=
   let '(_, _, _, _, (must, _, _), _) := c in with_out c (none_missing must).
